@@ -90,7 +90,7 @@ def explore_subtree(args):
     t0 = time.time()
     stack = list(prefixes)
     res = {'paths': 0, 'ends': collections.Counter(), 'violations': [], 'unsupported': [], 'steps': 0, 'queries': 0,
-           'solver_s': 0.0, 'covers': set(), 'samples': [], 'fns': set(), 'max_heap': 0, 'max_steps_path': 0}
+           'solver_s': 0.0, 'covers': set(), 'samples': [], 'fns': set(), 'max_heap': 0, 'max_steps_path': 0, 'max_depth': 0}
     try:
         while stack and res['paths'] < max_paths and time.time() - t0 < max_s:
             prefix = stack.pop()
@@ -99,6 +99,7 @@ def explore_subtree(args):
             res['steps'] += p.steps; res['queries'] += p.queries; res['solver_s'] += p.solver_s
             res['covers'] |= p.covers; res['fns'] |= p.fn_hits
             res['max_heap'] = max(res['max_heap'], p.heap_total); res['max_steps_path'] = max(res['max_steps_path'], p.steps)
+            res['max_depth'] = max(res['max_depth'], p.max_depth)
             stack.extend(p.alts)
             if kind in ('fail', 'panic', 'oob', 'budget', 'alloc'):
                 if len(res['violations']) < 20:
@@ -127,13 +128,14 @@ def _init_worker(ll_files):
 
 def new_agg():
     return {'paths': 0, 'ends': collections.Counter(), 'violations': [], 'unsupported': [], 'steps': 0, 'queries': 0, 'solver_s': 0.0,
-            'covers': set(), 'samples': [], 'fns': set(), 'max_heap': 0, 'max_steps_path': 0, 'complete': False}
+            'covers': set(), 'samples': [], 'fns': set(), 'max_heap': 0, 'max_steps_path': 0, 'max_depth': 0, 'complete': False}
 
 
 def merge(agg, res):
     agg['paths'] += res['paths']; agg['steps'] += res['steps']; agg['queries'] += res['queries']; agg['solver_s'] += res['solver_s']
     agg['ends'].update(res['ends']); agg['covers'] |= set(res['covers']); agg['fns'] |= set(res['fns'])
     agg['max_heap'] = max(agg['max_heap'], res['max_heap']); agg['max_steps_path'] = max(agg['max_steps_path'], res['max_steps_path'])
+    agg['max_depth'] = max(agg.get('max_depth', 0), res.get('max_depth', 0))
     if len(agg['violations']) < 20: agg['violations'].extend(res['violations'])
     if len(agg['unsupported']) < 10: agg['unsupported'].extend(res['unsupported'])
     if len(agg['samples']) < 4: agg['samples'].extend(res['samples'])
